@@ -20,6 +20,7 @@ import (
 	"time"
 
 	"github.com/sourcenetwork/defradb/client"
+	"github.com/sourcenetwork/defradb/internal/keys"
 	vc "github.com/sourcenetwork/defradb/internal/verifharness/common"
 	vnode "github.com/sourcenetwork/defradb/internal/verifharness/node"
 )
@@ -74,9 +75,10 @@ func (v val) gql() string {
 }
 
 type doc struct {
-	label  int
-	id     string
-	fields map[string]val
+	deleted bool
+	label   int
+	id      string
+	fields  map[string]val
 }
 
 var fieldKinds = map[string]string{"name": "s", "age": "i", "score": "f", "flag": "b"}
@@ -442,25 +444,35 @@ func (w *world) run(q *query) {
 		w.out.Count("query-error")
 		return
 	}
-	// twin with indexes (C07): same multiset of documents; with an order, the same sequence of sort keys
+	// twin with indexes (C07): same multiset of documents; with an order, the same sequence of sort keys.
+	// limit/offset without an ordering that makes the sequence unique select an implementation-defined
+	// slice, so those are compared only through the ordered-sequence oracle below.
 	if w.twin != nil {
 		tres := exec(w.ctx, w.twin, q.gql())
 		tgot := w.render(q, tres)
-		if q.sel == "docs" {
+		sliced := q.limit > 0 || q.offset > 0
+		if strings.HasPrefix(tgot, "PANIC") || tgot == "HANG" {
+			w.out.Oracle(line, fmt.Sprintf("[index-panic-or-hang] case %d indexes {%s}: %s -> %s with indexes", w.caseID, w.idxDesc, q.gql(), tgot))
+		} else if q.sel == "docs" {
 			a, b := labelsOf(got), labelsOf(tgot)
-			if len(q.order) == 0 && q.limit == 0 && q.offset == 0 {
+			if !sliced {
 				sa, sb := append([]int{}, a...), append([]int{}, b...)
 				sort.Ints(sa)
 				sort.Ints(sb)
 				if fmt.Sprint(sa) != fmt.Sprint(sb) || strings.HasPrefix(tgot, "error") {
 					w.out.Oracle(line, fmt.Sprintf("[index-changes-result] case %d indexes {%s}: %s returns %s without indexes and %s with them", w.caseID, w.idxDesc, q.gql(), got, tgot))
 				}
-			} else if len(q.order) > 0 {
-				if w.sortKeys(q, a) != w.sortKeys(q, b) || strings.HasPrefix(tgot, "error") {
-					w.out.Oracle(line, fmt.Sprintf("[index-changes-order] case %d indexes {%s}: %s returns sort keys %s without indexes and %s with them (%s vs %s)", w.caseID, w.idxDesc, q.gql(), w.sortKeys(q, a), w.sortKeys(q, b), got, tgot))
+			}
+			if len(q.order) > 0 {
+				first := *q
+				first.order = q.order[:1]
+				if w.sortKeys(&first, a) != w.sortKeys(&first, b) || strings.HasPrefix(tgot, "error") {
+					w.out.Oracle(line, fmt.Sprintf("[index-changes-order] case %d indexes {%s}: %s returns first sort keys %s without indexes and %s with them (%s vs %s)", w.caseID, w.idxDesc, q.gql(), w.sortKeys(&first, a), w.sortKeys(&first, b), got, tgot))
+				} else if w.sortKeys(q, a) != w.sortKeys(q, b) {
+					w.out.Oracle(line, fmt.Sprintf("[multi-key-order] case %d indexes {%s}: %s: documents that tie on the first key come in a different order with indexes (%s vs %s): ties are not broken by the following keys", w.caseID, w.idxDesc, q.gql(), got, tgot))
 				}
 			}
-		} else if got != tgot {
+		} else if got != tgot && !sliced {
 			w.out.Oracle(line, fmt.Sprintf("[index-changes-aggregate] case %d indexes {%s}: %s returns %s without indexes and %s with them", w.caseID, w.idxDesc, q.gql(), got, tgot))
 		}
 	}
@@ -527,6 +539,9 @@ func (w *world) run(q *query) {
 			seen[l] += 10
 		}
 		for _, d := range w.docs {
+			if d.deleted {
+				continue
+			}
 			if seen[d.label] != 1 && seen[d.label] != 10 {
 				w.out.Oracle(line, fmt.Sprintf("[filter-partition] case %d: document d%d is returned %d times by %s and %d times by its _not", w.caseID, d.label, seen[d.label]%10, q.filter.gql(), seen[d.label]/10))
 				break
@@ -711,7 +726,90 @@ func (w *world) loadDocs(r *vc.Rng, ndocs int) {
 	for i, d := range w.docs {
 		d.label = i + 1
 		w.byID[d.id] = d
-		w.out.Emit(fmt.Sprintf("doc %d %s %s %s %s", d.label, d.fields["name"].tok(), d.fields["age"].tok(), d.fields["score"].tok(), d.fields["flag"].tok()), "ok")
+		w.out.Emit(fmt.Sprintf("doc %d %s %s %s %s %s", d.label, d.fields["name"].tok(), d.fields["age"].tok(), d.fields["score"].tok(), d.fields["flag"].tok(), vc.Hex([]byte(d.id))), "ok")
+	}
+}
+
+// mutateAndDumpKeys applies updates and deletes to both databases (and the model), then compares the raw
+// index entries of the twin, byte for byte, with the entries the model derives from the live documents.
+func (w *world) mutateAndDumpKeys(r *vc.Rng, specs []idxSpec) {
+	col, err := w.n.DB.GetCollectionByName(w.ctx, "Doc")
+	must(err)
+	tcol, err := w.twin.DB.GetCollectionByName(w.ctx, "Doc")
+	must(err)
+	nm := r.Intn(8)
+	for i := 0; i < nm && len(w.docs) > 0; i++ {
+		d := w.docs[r.Intn(len(w.docs))]
+		if d.deleted {
+			continue
+		}
+		did, _ := client.NewDocIDFromString(d.id)
+		if r.Chance(1, 4) {
+			_, err := col.Delete(w.ctx, did)
+			must(err)
+			_, err = tcol.Delete(w.ctx, did)
+			must(err)
+			d.deleted = true
+			w.out.Emit(fmt.Sprintf("del %d", d.label), "ok")
+			continue
+		}
+		f := fieldNames[r.Intn(len(fieldNames))]
+		v := genVal(r, f, 3)
+		var gv any
+		switch v.k {
+		case "n":
+			gv = nil
+		case "b":
+			gv = v.b
+		case "i":
+			gv = v.i
+		case "f":
+			gv = float64(v.i) / 8
+		default:
+			gv = v.s
+		}
+		for _, c := range []client.Collection{col, tcol} {
+			doc, err := c.Get(w.ctx, did, false)
+			must(err)
+			must(doc.Set(f, gv))
+			must(c.Update(w.ctx, doc))
+		}
+		d.fields[f] = v
+		w.out.Emit(fmt.Sprintf("upd %d %s %s", d.label, f, v.tok()), "ok")
+	}
+	// live documents only from here on
+	var live []*doc
+	for _, d := range w.docs {
+		if !d.deleted {
+			live = append(live, d)
+		}
+	}
+	colShort, _, err := w.twin.DB.VerifShortIDs(w.ctx, tcol.Version().CollectionID)
+	must(err)
+	idxs, err := tcol.GetIndexes(w.ctx)
+	must(err)
+	for _, ix := range idxs {
+		if ix.Unique {
+			continue
+		}
+		var fs []string
+		for _, f := range ix.Fields {
+			d := "a"
+			if f.Descending {
+				d = "d"
+			}
+			fs = append(fs, f.Name+":"+d)
+		}
+		k := keys.NewIndexDataStoreKey(colShort, ix.ID, nil)
+		kvs, err := w.twin.ScanRoot(w.ctx, "/db/data"+string(k.Bytes())+"/")
+		must(err)
+		var hexes []string
+		for _, kv := range kvs {
+			hexes = append(hexes, vc.Hex(kv[0][len("/db/data"):]))
+		}
+		sort.Strings(hexes)
+		w.out.Emit(fmt.Sprintf("keys %d %d %s", colShort, ix.ID, strings.Join(fs, ",")), fmt.Sprintf("%d %s", len(hexes), strings.Join(hexes, ",")))
+		w.out.Count("op:keys")
 	}
 }
 
@@ -795,6 +893,9 @@ func runCase(ctx context.Context, out *vc.Out, caseID int, seed uint64, tier str
 		if withTwin && !before {
 			createIdx()
 			w.idxDesc += " after-data"
+		}
+		if withTwin {
+			w.mutateAndDumpKeys(r, specs)
 		}
 		nq := 25
 		if tier == "thorough" {
